@@ -1776,6 +1776,20 @@ def _stdlib_algebra(n):
     if not isinstance(n, ast.Call):
         return None
     f = n.func
+    if isinstance(f, ast.Name) and f.id in ('tuple', 'list') and len(n.args) == 1 and not n.keywords and _is_each(n.args[0]):
+        # tuple(E(x) for x in format_float((a, b))): the element-wise formatter gives one text per entry of the literal
+        e_, it_ = n.args[0].args
+        if isinstance(it_, ast.Call) and isinstance(it_.func, ast.Name) and it_.func.id in ELEMENTWISE and it_.args and \
+           isinstance(it_.args[0], (ast.Tuple, ast.List)) and 0 < len(it_.args[0].elts) <= 8 and \
+           not any(isinstance(x, ast.Starred) for x in it_.args[0].elts):
+            ittxt = norm(it_)
+            ks = {x.slice.id for x in ast.walk(e_) if isinstance(x, ast.Subscript) and isinstance(x.slice, ast.Name) and
+                  x.slice.id.startswith('_k') and norm(x.value) == ittxt}
+            if len(ks) == 1:
+                kn = ks.pop()
+                elts = [simplify(copy_replace(e_, lambda y, i_=i_: ast.Constant(value=i_) if isinstance(y, ast.Name) and y.id == kn else None))
+                        for i_ in range(len(it_.args[0].elts))]
+                return (ast.Tuple if f.id == 'tuple' else ast.List)(elts=elts, ctx=ast.Load())
     if isinstance(f, ast.Call) and not any(isinstance(a, ast.Starred) for a in f.args):
         nm = _last(f.func)
         if nm == 'attrgetter' and f.args and not f.keywords and len(n.args) == 1 and not n.keywords and \
